@@ -487,9 +487,17 @@ def judge(text: str, route: str, doc, case: dict, mutations: list, ns_depth=None
     except BaseException as exc:  # pylint: disable=broad-except
         if isinstance(exc, (KeyboardInterrupt, SystemExit)):
             raise
-        outcome = 'other'
         info = common.classify_exception(exc)
         inner = innermost_dznpy(exc) or info['where']
+        if info['type'] == 'JSONDecodeError' and info['where'].split(':')[-1] in ('__init__',
+                                                                                  'load_file'):
+            # the JSON decoder itself refused the text (e.g. its nesting limit): the document
+            # never reached the parser, which is what the property is about - counted only
+            counts['outcome_decoder_refused'] = 1
+            counts['route_' + route] = 1
+            res['outcome'] = 'decoder_refused'
+            return res
+        outcome = 'other'
         detail = {'type': info['type'], 'where': info['where'], 'innermost_dznpy': inner,
                   'message': info['message'], 'class': info['class'], 'mutations': mutations,
                   'namespace_depth': namespace_depth(doc) if ns_depth is None else ns_depth,
